@@ -36,6 +36,18 @@ CHECKS = {
         note=TB + " C02: numpy tensordot/einsum are modelled by the recursive contraction teval (not verified); the default-control-point constructor path "
                   "(itertools.product + reshape order F) is covered by the implementation-side identity probe, the theorem covers curves (tensor case: separable argument not yet formalised).",
         design='DESIGN.md section 8, C02'),
+    'C03': dict(
+        engine='kernelgen+objdiff',
+        technique='Coq proof over kernels regenerated from the Python source (field: Leibniz/Taylor-jet identities), Coquelicot is_derive for the derivative recurrence, summation by parts for the derivative spline; differential run of extracted dispatch model vs derivative()',
+        text=("Theorems in Properties/C03.v: the rational closed forms of Curve.derivative (orders 2,3), Surface.derivative (all multi-indices of total order <= 3) and the "
+              "generic first-order quotient rule, translated from the current source on every run, satisfy the Leibniz product identities (they are the Taylor jet of n/W); "
+              "unsupported rational orders raise RuntimeError; the non-rational derivative is the tensor sum with differentiated rows; for every order the derivative recurrence is "
+              "the analytic derivative inside knot spans (is_derive); the derivative spline identity (summation by parts). L1: implementation vs the extracted dispatch model "
+              "(which executes the regenerated kernels on Q); L2: implementation vs exact Leibniz jets of the homogeneous derivatives for every spelling of d/above/tensor; "
+              "derivative splines, tangents and normals are cross-checked on the implementation."),
+        note=TB + " C03: translator harness/translate.py (fail-closed Python ast -> Gallina) is trusted; one-sided derivatives at knots where the object itself jumps (multiplicity >= order) "
+                  "are excluded for rational objects (no derivative of the evaluated map exists there); tangent/normal normalisation is checked numerically only.",
+        design='DESIGN.md section 8, C03'),
 }
 
 PENDING_REASON = "not claimed in this revision: model/theorems for this property are still being built (see DESIGN.md section 8 for the plan)"
